@@ -179,14 +179,20 @@ pub fn fe_case(cfg: &Cfg, f: &mut Frontend, peer: &UnixStream, c: FeCfg, op: &Fe
         preload(peer, op.code(), &spec::p_u64(0), None);
     }
     let mut lent = Lent::default();
-    let out = match util::catch(|| op.exec(f, &mut lent)) {
+    let (res, blocked) = util::exec_bounded(f, op, &mut lent, util::PeerKind::Raw);
+    let out = match res {
         Ok(o) => o,
         Err(p) => {
             viol(cfg, &format!("fe:{}:panic", op.name()), case, jo! {"op" => op.j(), "panic" => p.msg, "at" => p.location});
             return false;
         }
     };
-    if !out.ok && sys::inq(peer.as_raw_fd()) == 0 {
+    if blocked {
+        // every reply this call is entitled to was queued before it started
+        viol(cfg, &format!("fe:{}:call-waits-for-a-reply-the-spec-does-not-define", op.name()), case,
+            jo! {"op" => op.j(), "cfg" => format!("{c:?}"), "reply_kind" => format!("{kind:?}"), "certificate" => "caller parked in recvmsg, nothing queued, raw peer silent"});
+    }
+    if !out.ok && !blocked && sys::inq(peer.as_raw_fd()) == 0 {
         // the API refused the call locally: nothing to compare on the wire (C02/C07 judge refusals)
         report::observe(&format!("api-refused:{}", op.name()), jo! {"op" => op.j(), "err" => out.err.as_str()});
         return false;
@@ -261,7 +267,7 @@ pub fn fe_case(cfg: &Cfg, f: &mut Frontend, peer: &UnixStream, c: FeCfg, op: &Fe
         viol(cfg, &format!("fe:{}:extra-bytes", op.name()), case, jo! {"op" => op.j(), "extra" => J::hex(&d.bytes)});
     }
     d.close_fds();
-    out.ok == rep.exp_ok && rep.exp_ok && !extra
+    out.ok == rep.exp_ok && rep.exp_ok && !extra && !blocked
 }
 
 fn frontend_dir(cfg: &Cfg, rng: &mut Rng) {
